@@ -440,6 +440,10 @@ func (ev *evalCtx) call(e *SExpr) Val {
 			return ghost("true", "Bool")
 		}
 		return ghost("false", "Bool")
+	case "wg":
+		// wg(x): counter of the sync.WaitGroup x (a struct-typed field)
+		x := argv(0)
+		return ghost(ev.read("wg."+lockKeyOf(x), "Int", x.T), "Int")
 	case "isclass":
 		if len(e.Args) != 2 || e.Args[1].Op != "str" {
 			return ev.fail("isclass(ch, \"name\")")
@@ -481,6 +485,19 @@ func (ev *evalCtx) call(e *SExpr) Val {
 		out := a
 		out.T = smtIte(c.T, a.T, b.T)
 		return out
+	case "atlock":
+		// atlock(e): value of e right after the most recent Lock in this frame
+		if len(e.Args) != 1 {
+			return ev.fail("atlock(e)")
+		}
+		if ev.fr.lockSnap == nil {
+			return ev.fail("atlock: no Lock executed on this path")
+		}
+		save := ev.heap
+		ev.heap = ev.fr.lockSnap
+		v := ev.eval(e.Args[0])
+		ev.heap = save
+		return v
 	case "loopentry":
 		// loopentry(N, expr): value of expr at entry of loop N
 		if len(e.Args) != 2 || e.Args[0].Op != "int" {
@@ -528,4 +545,15 @@ func (ex *Exec) findGlobal(pkgName, name string) *ssa.Global {
 		}
 	}
 	return nil
+}
+
+// tryClause evaluates a clause and reports whether it could be typed in this context
+// (used for channel-class invariants, which only apply to channels of the matching element type).
+func (ex *Exec) tryClause(st *State, fr *Frame, c *Clause, extra map[string]Val) (string, bool) {
+	ev := &evalCtx{ex: ex, st: st, fr: fr, extra: extra}
+	v := ev.eval(c.Expr)
+	if len(ev.err) > 0 || v.S != "Bool" {
+		return "true", false
+	}
+	return v.T, true
 }
